@@ -127,7 +127,18 @@ def run_harness(name, cases, procs=8):
     shutil.rmtree(d, ignore_errors=True)
     os.makedirs(d, exist_ok=True)
     n = max(1, min(procs, (len(cases) + 199) // 200))
-    chunks = [cases[i::n] for i in range(n)]
+    # contiguous blocks (the cases of a group stay adjacent and in order)
+    per = (len(cases) + n - 1) // n
+    chunks, cur = [], []
+    for i, c in enumerate(cases):
+        cur.append(c)
+        nxt = cases[i + 1].get("group") if i + 1 < len(cases) else None
+        if len(cur) >= per and not (c.get("group") is not None and c.get("group") == nxt):
+            chunks.append(cur)
+            cur = []
+    if cur:
+        chunks.append(cur)
+    n = len(chunks)
 
     def one(i):
         cp = os.path.join(d, "cases%d.ndjson" % i)
@@ -166,10 +177,13 @@ def run_judge(name, obs, module="Judge", procs=8, timeout=3000, per_chunk=4000):
     # chunks of whole cases
     chunks, cur, n = [], [], 0
     target = max(200, min(per_chunk, (len(obs) + procs - 1) // procs))
-    for g in groups:
+    for gi, g in enumerate(groups):
         cur.extend(g)
         n += len(g)
-        if n >= target:
+        # never split between two consecutive cases of the same group
+        grp = g[0]["c"].get("group")
+        nxt = groups[gi + 1][0]["c"].get("group") if gi + 1 < len(groups) else None
+        if n >= target and not (grp is not None and grp == nxt):
             chunks.append(cur)
             cur, n = [], 0
     if cur:
